@@ -409,6 +409,69 @@ func c20Exec(c *Ctx, cs c20Case) string {
 				viol("clear-exact", "object-differs-from-model", "/"+fam, canonJSON(wantObj.obj), canonJSON(obj.obj))
 			}
 		}
+	case "clear-nested":
+		// a callback of the outer clear itself clears another family of the same object (re-entrant use):
+		// the outer clear must still report exactly its own keywords once to every callback
+		outer, inner := cs.Seq[0], cs.Seq[1]
+		model := c20State{}
+		for k, v := range st {
+			model[k] = v
+		}
+		cv, sv, commit := obj.clearTarget()
+		if sv == nil && (outer == "object" || inner == "object") {
+			return ""
+		}
+		clearFam := func(fam string, cbs ...func(string, interface{})) {
+			switch fam {
+			case "number":
+				cv.ClearNumberValidations(cbs...)
+			case "string":
+				cv.ClearStringValidations(cbs...)
+			case "array":
+				cv.ClearArrayValidations(cbs...)
+			case "object":
+				sv.ClearObjectValidations(cbs...)
+			}
+		}
+		var outerA, outerB, innerR []c20Report
+		nested := false
+		clearFam(outer,
+			func(k string, v interface{}) {
+				outerA = append(outerA, c20Report{k, c20Render(v)})
+				if !nested {
+					nested = true
+					clearFam(inner, func(k string, v interface{}) { innerR = append(innerR, c20Report{k, c20Render(v)}) })
+				}
+			},
+			func(k string, v interface{}) { outerB = append(outerB, c20Report{k, c20Render(v)}) })
+		commit()
+		wantOf := func(fam string) []c20Report {
+			var want []c20Report
+			for _, k := range c20Families[fam] {
+				if model[k] != 0 {
+					want = append(want, c20Report{k, c20ModelVal(k, model[k])})
+					model[k] = 0
+				}
+			}
+			sort.Slice(want, func(i, j int) bool { return want[i].Key < want[j].Key })
+			return want
+		}
+		wantOuter := wantOf(outer)
+		var wantInner []c20Report
+		if len(wantOuter) > 0 {
+			wantInner = wantOf(inner)
+		}
+		for name, pair := range map[string][2][]c20Report{"outer-first-callback": {outerA, wantOuter}, "outer-second-callback": {outerB, wantOuter}, "inner": {innerR, wantInner}} {
+			got := append([]c20Report{}, pair[0]...)
+			sort.Slice(got, func(a, b int) bool { return got[a].Key < got[b].Key })
+			if fmt.Sprint(got) != fmt.Sprint(pair[1]) {
+				viol("clear-callbacks", "reports-differ-when-a-callback-clears-another-family", "/"+outer+"/"+inner+"/"+name, fmt.Sprint(pair[1]), fmt.Sprint(got))
+			}
+		}
+		wantObj := c20New(cs.Carrier, c20Restrict(model, kws))
+		if !reflect.DeepEqual(obj.obj, wantObj.obj) {
+			viol("clear-exact", "object-differs-from-model", "/"+outer+"/"+inner, canonJSON(wantObj.obj), canonJSON(obj.obj))
+		}
 	}
 	return ""
 }
@@ -561,6 +624,13 @@ func c20State1(c *Ctx, carrier string, st c20State, seqs [][]string) {
 	run(c20Case{Carrier: carrier, State: st, Op: "read-write"})
 	run(c20Case{Carrier: carrier, State: st, Op: "write-read"})
 	run(c20Case{Carrier: carrier, State: st, Op: "with-read"})
+	for _, outer := range c20FamilyNames {
+		for _, inner := range c20FamilyNames {
+			if outer != inner {
+				run(c20Case{Carrier: carrier, State: st, Op: "clear-nested", Seq: []string{outer, inner}, NCb: 2})
+			}
+		}
+	}
 	for _, seq := range seqs {
 		ncbs := []int{1}
 		if len(seq) == 1 {
@@ -575,7 +645,7 @@ func c20State1(c *Ctx, carrier string, st c20State, seqs [][]string) {
 func init() {
 	register(&CheckDef{
 		ID: "C20", Build: "light", Run: c20Run, RunCase: c20RunCase,
-		Rule: "states = every assignment of {absent,zero,non-zero}/{false,true}/{\"\",p}/{nil,[1]}/{nil,{},{^a:{}}} to the validation keywords of a carrier (Parameter, Header, Items, CommonValidations, SchemaValidations, Schema) whose other fields all hold sentinel values; transitions = Validations, SetValidations, WithValidations, every sequence of Clear* up to the bound with 0-2 callbacks; non-trivial = state with at least one keyword present",
+		Rule: "states = every assignment of {absent,zero,non-zero}/{false,true}/{\"\",p}/{nil,[1]}/{nil,{},{^a:{}}} to the validation keywords of a carrier (Parameter, Header, Items, CommonValidations, SchemaValidations, Schema) whose other fields all hold sentinel values; transitions = Validations, SetValidations, WithValidations, every sequence of Clear* up to the bound with 0-2 callbacks, every ordered pair of families where a callback of the outer Clear* clears the inner family of the same object (re-entrant use); non-trivial = state with at least one keyword present",
 		Assumptions: []string{
 			"previous values reported to callbacks are compared after dereferencing pointers",
 			"callback order within one clear is not part of the property (compared as multisets)",
